@@ -10,19 +10,30 @@
 //   kind fracidx the expression `(uint64_t)(j * (count / (num_cuts + 1.0)))` for huge counts (compiler arithmetic vs Flocq)
 // I: `x c1 c2 ...` / `y c1 ...` (hex doubles) / `nocall` / `crash` / `hang` (before the first call of slice).
 // P: what the harness decides alone: cut list non-empty, non-decreasing, within the subject's extent on the chosen axis; the
-//    first subject is the polygon itself; all-identical vertices reach the unbounded scan (finding c12-fracture-scan-oob).
+//    first subject is the polygon itself; a crash on all-identical vertices is the repaired defect c12-fracture-scan-oob
+//    (commit e912cb9 bounds the first scan); the doubles fracture allocates for `coords` end at an inaccessible page, so a
+//    read past the array faults in every build.
 #include <algorithm>
 #include <gdstk/gdstk.hpp>
 #include <gdstk/allocator.hpp>
 #include <gdstk/font.hpp>
 #include "clip_common.hpp"
+#include <sys/mman.h>
 
 namespace gdstk {
 ErrorCode logging_slice(const Polygon& polygon, const Array<double>& positions, bool x_axis, double scaling, Array<Polygon*>* result);
+void* guard_allocate(uint64_t size);
+void guard_free(void* ptr);
 }
+// inside the included polygon.cpp: slice(...) -> logging_slice(...), allocate(...) -> guard_allocate(...),
+// free_allocation(...) -> guard_free(...)   (the calls written in polygon.cpp itself; /repo is not edited)
 #define slice logging_slice
+#define allocate guard_allocate
+#define free_allocation guard_free
 #include "polygon.cpp"  // listed in include_cpp of checks/c12_cuts.py
 #undef slice
+#undef allocate
+#undef free_allocation
 
 using namespace gdstk;
 
@@ -30,6 +41,11 @@ static FILE* g_log = NULL;      // child only
 static long g_calls = 0;        // calls of slice seen in this fracture
 static long g_log_limit = 1;    // calls logged
 static bool g_first_only = true;  // leave the child after the first call (arbitrary vertex lists: Clipper is not the subject here)
+static bool g_guard = false;      // child only: blocks from polygon.cpp's own allocate() calls end at a PROT_NONE page
+static const int GUARD_MAX = 4096;
+static char* g_guard_lo[GUARD_MAX];
+static char* g_guard_hi[GUARD_MAX];
+static int g_guard_n = 0;
 
 namespace gdstk {
 ErrorCode logging_slice(const Polygon& polygon, const Array<double>& positions, bool x_axis, double scaling, Array<Polygon*>* result) {
@@ -48,6 +64,25 @@ ErrorCode logging_slice(const Polygon& polygon, const Array<double>& positions, 
         _exit(0);
     }
     return slice(polygon, positions, x_axis, scaling, result);
+}
+// `double* coords = (double*)allocate(sizeof(double) * num_points)` of Polygon::fracture (and every other allocate() written in
+// polygon.cpp): in a guarded child the block is placed so that its last byte is the last byte before an inaccessible page
+void* guard_allocate(uint64_t size) {
+    if (!g_guard || size == 0 || size % 8 != 0 || g_guard_n >= GUARD_MAX) return allocate(size);
+    long page = sysconf(_SC_PAGESIZE);
+    uint64_t body = (size + (uint64_t)page - 1) / (uint64_t)page * (uint64_t)page;
+    char* base = (char*)mmap(NULL, body + (uint64_t)page, PROT_READ | PROT_WRITE, MAP_PRIVATE | MAP_ANONYMOUS, -1, 0);
+    if (base == (char*)MAP_FAILED) return allocate(size);
+    mprotect(base + body, (size_t)page, PROT_NONE);
+    g_guard_lo[g_guard_n] = base;
+    g_guard_hi[g_guard_n] = base + body;
+    g_guard_n++;
+    return base + body - size;
+}
+void guard_free(void* ptr) {
+    for (int i = 0; i < g_guard_n; i++)
+        if ((char*)ptr >= g_guard_lo[i] && (char*)ptr < g_guard_hi[i]) return;  // the child exits soon: never unmapped
+    free_allocation(ptr);
 }
 }  // namespace gdstk
 
@@ -156,12 +191,7 @@ static void run_cuts(Out& out, const DPoly& P, uint64_t limit, double precision,
             g_first_only = !expand;
             g_log_limit = expand ? (g_thorough ? 24 : 12) : 1;
             Polygon* poly = make_polygon(P);
-            if (degenerate) {
-                // an earlier user of the heap leaves the same number behind the place `coords` will get (one more slot)
-                double* old = (double*)malloc(sizeof(double) * (P.size() + 1));
-                for (size_t i = 0; i <= P.size(); i++) old[i] = P[0].y;
-                free(old);
-            }
+            g_guard = true;
             Array<Polygon*> result = {};
             poly->fracture(limit, precision, result);
             fprintf(o, "done %llu", (unsigned long long)result.count);
@@ -180,8 +210,8 @@ static void run_cuts(Out& out, const DPoly& P, uint64_t limit, double precision,
         std::string r = finished ? "nocall" : (res == "HANG" ? "hang" : "crash");
         out.I(id, r);
         out.count("cuts:result:" + r);
-        if (degenerate)
-            out.P(id, "FAIL c12-fracture-scan-oob every vertex is the same point: `while (interior_coords.items[0] == coords[0])` reads past the coords allocation (observed: " + res.substr(0, 30) + ")");
+        if (degenerate && !finished)
+            out.P(id, "FAIL c12-fracture-scan-oob every vertex is the same point and fracture did not reach slice (the scan for the first interior coordinate must stop at the end of the coords array): " + res.substr(0, 30));
         else if (!finished)
             out.P(id, "FAIL c12-cuts-" + r + " fracture did not reach slice: " + res.substr(0, 40));
         else out.P(id, "ok");
@@ -206,9 +236,8 @@ static void run_cuts(Out& out, const DPoly& P, uint64_t limit, double precision,
         out.count(std::string("cuts:rule:") + (interior == 0 ? "midpoint" : interior <= num_cuts ? "all-interior" : interior == num_cuts + 1 ? "frac-count=cuts+1" : "frac"));
         out.count(std::string("cuts:num_cuts:") + (num_cuts <= 1 ? "1" : num_cuts <= 4 ? "2-4" : num_cuts <= 20 ? "5-20" : ">20"));
     }
-    if (degenerate)
-        out.P(id, "FAIL c12-fracture-scan-oob every vertex is the same point: `while (interior_coords.items[0] == coords[0])` reads past the coords allocation (observed: slice called with " + result_text(c).substr(0, 60) + ")");
-    else if (!same_points(c.subj, P)) out.P(id, "FAIL c12-cuts-subject the first subject handed to slice is not the polygon itself");
+    if (degenerate) out.count("cuts:one-point-returned");
+    if (!same_points(c.subj, P)) out.P(id, "FAIL c12-cuts-subject the first subject handed to slice is not the polygon itself");
     else if (kind == "cutsall" && !finished)
         out.P(id, std::string("FAIL c12-cutsall-") + (res == "HANG" ? "hang" : "crash") + " fracture did not return (" + res.substr(0, 30) + ") after " + std::to_string(calls.size()) + " logged rounds; last logged cut list: " + result_text(calls.back()).substr(0, 60));
     else out.P(id, cuts_oracle(c));
@@ -406,7 +435,6 @@ static void gen_case(Out& out, Rng& g) {
         double vx = rnd_double(g, (int)g.below(6)), vy = rnd_double(g, (int)g.below(6));
         DPoly P;
         int mode = (int)g.below(4);
-        if (mode == 0 && !g.chance(15)) mode = 1 + (int)g.below(3);  // the crashing case rarely: each is a finding line
         for (uint64_t i = 0; i < n; i++) {
             Vec2 v{vx, vy};
             if (mode == 1) v.x = vx + (double)g.below(4);              // horizontal line: y degenerate, x chosen
